@@ -193,6 +193,7 @@ class _Str(Shape):
 
 
 class Opaque(Shape):
+  coercions = {}      # kind -> fn(plain python value) -> z3 term of that sort, or None
   def __init__(self, kind): self.kind = kind
   def __repr__(self): return "Opaque(%s)" % self.kind
   def __eq__(self, o): return isinstance(o, Opaque) and o.kind == self.kind
@@ -200,6 +201,10 @@ class Opaque(Shape):
   def sorts(self): return [opaque_sort(self.kind)]
   def leaves(self, v):
     if isinstance(v, SOpq) and v.kind == self.kind: return [v.t]
+    f = Opaque.coercions.get(self.kind)
+    if f is not None and not isinstance(v, Sym):
+      t = f(v)
+      if t is not None: return [t]
     raise Unsupported("value %r where %r expected" % (v, self))
   def build(self, ls): return SOpq(ls[0], self.kind)
   def concretize(self, v, model, ev):
